@@ -1807,6 +1807,98 @@ example :
     (fun a ha => match a, ha with | 0, _ => by decide | 1, _ => by decide)
   exact ⟨h.1, h.2, rfl⟩
 
+
+omit [DecidableEq K] in
+/-- 1-d: forward minus backward difference has the same rows for a pad mode and its
+`_ADJ_PADDING` partner, for the pad modes `Laplacian` accepts — this is why returning the SAME
+pad mode in `Laplacian.adjoint` is right (same statement as C13's `laplacian_rows_adj_invariant`,
+re-proved here on the generated tables). -/
+theorem C05.lap_rows_adj_invariant (p : Pad) (hp : p ∉ lapRejected)
+    (n : Nat) (hn : 2 ≤ n) (dx : K) (f : Nat → K) (i : Nat) :
+    lap1 n p dx f i = lap1 n (adjPad p) dx f i := by
+  simp only [lap1, fd, fdNum_closed _ n hn]
+  cases p <;> simp [lapRejected] at hp <;>
+    simp [tbl, adjPad, accSum, evalTerms, evalTerm, interior] <;> split_ifs <;> ring
+
+omit [DecidableEq K] in
+/-- 1-d core: one axis of the Laplacian (`forward − backward`, spacing `dx²`, same pad mode) is
+self-transposed, for every accepted pad mode and every axis length on which the four leaves run. -/
+theorem C05.lap1_selfadjoint (p : Pad) (hp : p ∉ lapRejected) (n : Nat)
+    (h1 : sizeCheck guards (tbl .forward p) p n = none)
+    (h2 : sizeCheck guards (tbl .backward p) p n = none)
+    (h3 : sizeCheck guards (tbl .forward (adjPad p)) (adjPad p) n = none)
+    (h4 : sizeCheck guards (tbl .backward (adjPad p)) (adjPad p) n = none)
+    (dx : K) (f g : Nat → K) :
+    ∑ i ∈ range n, g i * lap1 n p dx f i = ∑ k ∈ range n, f k * lap1 n p dx g k := by
+  have hn : 2 ≤ n := le_trans (tbl .forward p).two_le_need (sizeCheck_none h1)
+  have a1 := C05.fd_transpose .forward p n h1 h4 dx f g
+  have a2 := C05.fd_transpose .backward p n h2 h3 dx f g
+  simp only [adjMethod] at a1 a2
+  have e : ∑ k ∈ range n, f k * lap1 n p dx g k = ∑ k ∈ range n, f k * lap1 n (adjPad p) dx g k :=
+    sum_congr rfl fun k _ => by rw [C05.lap_rows_adj_invariant p hp n hn dx g k]
+  rw [e]
+  simp only [lap1, mul_sub, sum_sub_distrib, mul_neg, sum_neg_distrib] at *
+  rw [a1, a2]; ring
+
+/-- Laplacian(S, pad_mode) (linear case `pad_const = 0`) on a uniformly discretized space of ANY
+ndim and shape with constant weight `w` (cell volume), real or complex: the sum over the axes
+as executed by `Laplacian._call` (`lapTree`, driver token `lap`, compared exactly with the real
+`Laplacian` on the stream `model/laplacian`) is a well-formed tree whose leaf contracts are all
+proved, and its model adjoint is the same sum — what `Laplacian.adjoint` returns
+(`Laplacian(range, domain, pad_mode=self.pad_mode)`); so `adj_sound` gives
+`⟨Lx, y⟩ = ⟨x, L*y⟩` for every pad mode the class accepts.  NOT covered: `nodes_on_bdry`
+discretizations (F60). -/
+theorem C05.laplacian_adj (cj : K →+* K) (I : K) (S : Space K) (sh : List Nat) (pa : Pad)
+    (dx : Nat → K) (w : K) (d : Nat) (hp : pa ∉ lapRejected)
+    (hS : S.m = 1) (hlen : d ≤ sh.length) (hSn : S.n 0 = shProd sh) (hSW : ∀ i, S.W 0 i = w)
+    (hdx : ∀ a < d, cj (dx a) = dx a)
+    (h1 : ∀ a < d, sizeCheck guards (tbl .forward pa) pa (sh.getD a 0) = none)
+    (h2 : ∀ a < d, sizeCheck guards (tbl .backward pa) pa (sh.getD a 0) = none)
+    (h3 : ∀ a < d, sizeCheck guards (tbl .forward (adjPad pa)) (adjPad pa) (sh.getD a 0) = none)
+    (h4 : ∀ a < d, sizeCheck guards (tbl .backward (adjPad pa)) (adjPad pa) (sh.getD a 0) = none) :
+    (lapTree S sh pa dx d).WT cj I ∧ (lapTree S sh pa dx d).dom = S ∧
+      (lapTree S sh pa dx d).ran = S := by
+  induction d with
+  | zero => exact ⟨trivial, rfl, rfl⟩
+  | succ a ih =>
+    obtain ⟨w1, d1, r1⟩ := ih (by omega) (fun b hb => hdx b (by omega)) (fun b hb => h1 b (by omega))
+      (fun b hb => h2 b (by omega)) (fun b hb => h3 b (by omega)) (fun b hb => h4 b (by omega))
+    refine ⟨⟨w1, ?_, by rw [d1]; rfl, by rw [r1]; rfl⟩, d1, r1⟩
+    set n := sh.getD a 0
+    set q := shProd (sh.drop (a + 1))
+    have hs := shProd_split sh a (by omega)
+    have hn : 2 ≤ n := le_trans (tbl .forward pa).two_le_need (sizeCheck_none (h1 a (by omega)))
+    have hdxa : cj (dx a * dx a) = dx a * dx a := by rw [map_mul, hdx a (by omega)]
+    have hc : ∀ (y : El K) (j o : Nat), cj (axisRun n n q (lap1 n pa (dx a * dx a)) y j o) =
+        axisRun n n q (lap1 n pa (dx a * dx a)) (fun j i => cj (y j i)) j o := by
+      intro y j o
+      simp only [axisRun, lap1, map_sub, fd_conj cj _ n hn, hdxa]
+    show Pair cj (false = true) S S _ _
+    refine ⟨?_, ?_, ?_⟩
+    · intro x hx hr j o
+      rw [hc]; congr 1; funext j i; exact hx hr j i
+    · intro y hy hr j o
+      rw [hc]; congr 1; funext j i; exact hy hr j i
+    · intro φ _ x y _ _
+      congr 1
+      simp only [dot_eq, hS, sum_range_one, hSn, hs, hSW, hc]
+      exact axis_dot (shProd (sh.take a)) n n q _ _
+        (fun f g => C05.lap1_selfadjoint pa hp n (h1 a (by omega)) (h2 a (by omega))
+          (h3 a (by omega)) (h4 a (by omega)) (dx a * dx a) f g) w x (fun j i => cj (y j i))
+
+/-- Non-vacuity: Laplacian on `uniform_discr([0,0],[1.5,2],(3,4))`, pad mode `symmetric`. -/
+example :
+    let S : Space ℚ := ⟨1, fun _ => 12, fun _ _ => 1 / 4, true⟩
+    (lapTree S [3, 4] .symmetric (fun _ => 1 / 2) 2).WT (RingHom.id ℚ) 0 ∧
+      ((lapTree S [3, 4] .symmetric (fun _ => (1 / 2 : ℚ)) 2).adj (RingHom.id ℚ) 0).isSome = true := by
+  intro S
+  exact ⟨(C05.laplacian_adj (RingHom.id ℚ) 0 S [3, 4] .symmetric (fun _ => 1 / 2) (1 / 4) 2
+    (by decide) rfl (le_refl 2) rfl (fun _ => rfl) (fun _ _ => rfl)
+    (fun a ha => match a, ha with | 0, _ => by decide | 1, _ => by decide)
+    (fun a ha => match a, ha with | 0, _ => by decide | 1, _ => by decide)
+    (fun a ha => match a, ha with | 0, _ => by decide | 1, _ => by decide)
+    (fun a ha => match a, ha with | 0, _ => by decide | 1, _ => by decide)).1, rfl⟩
+
 end
 
 /-! ### non-vacuity over ℂ: a tree mixing real and complex spaces under a complex scalar -/
